@@ -235,6 +235,8 @@ def _validate_types(nodes: dict[str, HyperNode], nx_graph: nx.DiGraph) -> None:
         value_names = edge_data.get("value_names")
         if not value_names:
             continue
+        if edge_data.get("edge_type") == "ordering":
+            continue  # wait_for on a signal carries no data, so there is nothing to type-check
 
         source_node = nodes[source_name]
         target_node = nodes[target_name]
